@@ -33,7 +33,7 @@ for d in sorted(glob.glob(os.path.join(ROOT, "seeded", "C??-*")), key=lambda x: 
 stable = "| id | round | file | change | when first run | final run |\n|---|---|---|---|---|---|\n" + "\n".join(rows)
 STATUS = {
  "C01": ("full (ledger and pipeline)", "`C01_refines_spec`, `C01_row`, `C01_registered`, `C01_affiliates_independent`, `C01_pipeline`"),
- "C02": ("full (the rule, and its hypotheses for every reachable state)", "`C02_superficial_iff`, `C02_ratio`, `C02_automatic`, `C02_specified`, `C02_rule`, `C02_every_reachable_sale`, `C02_comparisons_match_source`, window/tolerance constants"),
+ "C02": ("full (the rule, and its hypotheses for every reachable state)", "`C02_superficial_iff`, `C02_ratio`, `C02_automatic`, `C02_specified`, `C02_rule`, `C02_every_reachable_sale`, `C02_pipeline_histories_sorted`, `C02_comparisons_match_source`, window/tolerance constants"),
  "C03": ("full, ledger and pipeline (the property itself carries the \"not flagged over-applied\" condition)", "`C03_conservation`, `C03_pipeline`, `C03_adjustments_sum`, `C03_never_registered`"),
  "C04": ("full (ledger, pipeline, totals); output modes by oracle", "`C04_nonneg`, `C04_total`, `C04_registered`, `C04_only_user_errors`, `C04_row_rejected_iff`, `C04_sfl_error_iff`, `C04_pipeline`, `C04_rejected_not_in_totals`"),
  "C05": ("core full (ledger and pipeline); front ends sampled", "`C05_core_no_panic`, `C04_pipeline`"),
